@@ -44,6 +44,34 @@ def transfer_task(t):
             elif not r['applied_equal'] or not r['membership_equal']:
                 f = {'cls': 'applied-state-differs', 'detail': {'applied_equal': r['applied_equal'], 'membership_equal': r['membership_equal']}}
             out.append({'req': {k: req[k] for k in ('cmds', 'suffix', 'b_before')}, 'finding': f, 'nonempty': bool(r.get('a_at_snapshot')), 'j': j})
+        # concurrent transfers: the snapshot is built while an applier thread keeps applying (as openraft does)
+        for j in range(t['n'] // 2):
+            keys = ['k%d' % i for i in range(rng.randint(1, 4))]
+            n = rng.randint(20, 80)
+            cmds = []
+            for i in range(n):
+                cmds.append('SET %s %d' % (rng.choice(keys), i) if rng.random() < 0.85 else 'DELETE %s' % rng.choice(keys))
+            req = {'op': 'snapshot_transfer_concurrent', 'cmds': cmds, 'delay_us': rng.choice([100, 300, 1000, 3000]), 'pause_us': rng.choice([0, 20, 100]),
+                   'start_after': rng.randint(0, n // 2)}
+            r = w.send(req)
+            f = None
+            if not r.get('ok'):
+                f = {'cls': 'adapter-error', 'detail': r}
+            else:
+                N = r['snapshot_last_index']
+                model = {}
+                for c in cmds[:N]:
+                    p = c.split()
+                    if p[0] == 'SET':
+                        model[p[1]] = p[2]
+                    else:
+                        model.pop(p[1], None)
+                if r['b_after_install'] != model:
+                    f = {'cls': 'snapshot-content-does-not-match-its-log-id', 'detail': {'snapshot_last_index': N, 'state_at_that_index': model, 'installed': r['b_after_install']}}
+                elif r['b_final'] != r['a_final']:
+                    f = {'cls': 'diverged-after-catch-up', 'detail': {'sender': r['a_final'], 'receiver': r['b_final']}}
+            out.append({'req': {k: v for k, v in req.items() if k != 'op'}, 'finding': f, 'nonempty': bool(r.get('b_after_install')), 'j': 1000 + j, 'concurrent': True,
+                        'mid': r.get('ok') and 0 < r['snapshot_last_index'] < len(cmds)})
     finally:
         w.close()
     return out
@@ -53,7 +81,7 @@ def run(tier, seed, budget):
     rep = Report('C20', tier, seed, 'exploration')
     rep.rule = c18.RULE_C20 + ('; part 2: %d generated transfers: 0-25 SET/DELETE/blank/membership entries applied through adapter A, build_snapshot, install_snapshot into adapter B '
                                '(one third with stale pre-existing state), 0-8 common suffix entries on both; oracle: B\'s application state after install == A\'s at the snapshot, '
-                               'both equal after the suffix, applied log id and membership equal' % (600 if q else 20000))
+                               'both equal after the suffix, applied log id and membership equal; plus half as many concurrent transfers: an applier thread keeps applying 20-80 entries to adapter A while build_snapshot runs on a clone (the application\'s snapshot() is slowed by 0.1-3 ms), B installs it and applies every entry after the snapshot\'s log id; oracle: B after install == state after exactly snapshot_last_index commands, B == A at the end' % (600 if q else 20000))
     rep.assumptions = [dw.STANDINS[1], 'part 1: metadata.rs compiled unchanged into harness/dw; states compared as decoded structures'] + c21.STANDINS[:1] + \
                       ['part 2 uses octopii\'s KvStateMachine as the application behind the adapter (the adapter is generic over StateMachineTrait)']
     binary = dw.build()
@@ -83,13 +111,17 @@ def run(tier, seed, budget):
             for c in res:
                 rep.add_case(fingerprint(['xfer', t['idx'], c['j']]), c['nonempty'], {'part': 2, **c['req']})
                 rep.count('snapshot_transfers')
+                if c.get('concurrent'):
+                    rep.count('concurrent_transfers')
+                    if c.get('mid'):
+                        rep.count('concurrent_transfers_snapshot_taken_mid_stream')
                 if c['nonempty']:
                     rep.count('transfers_with_nonempty_state')
                 if c['finding']:
                     rep.add_violation(Violation('C20', c['finding']['cls'], c['finding']['detail'], ['part:2'],
                                                 {'kind': 'xfer', 'seed': t['seed'], 'idx': t['idx'], 'case': c['j'], 'request': c['req']}))
     rep.distinct_measured = states + len(rep.nontrivial)
-    rep.required = {'snapshots_checked': 3000, 'distinct_states': 3000, 'snapshot_transfers': 300, 'transfers_with_nonempty_state': 200}
+    rep.required = {'snapshots_checked': 3000, 'distinct_states': 3000, 'snapshot_transfers': 300, 'transfers_with_nonempty_state': 200, 'concurrent_transfers': 100, 'concurrent_transfers_snapshot_taken_mid_stream': 30}
     return rep.finish(exhaustive=False)
 
 def lambda_task(t):
@@ -103,6 +135,21 @@ def replay(path):
     binary = common.build('oct', 'debug')
     w = Wsrv(binary, timeout=60)
     try:
+        if 'delay_us' in r['request']:
+            hit = False
+            for _ in range(20):
+                res = w.send({'op': 'snapshot_transfer_concurrent', **r['request']})
+                N = res.get('snapshot_last_index', 0)
+                model = {}
+                for c in r['request']['cmds'][:N]:
+                    p = c.split()
+                    model.__setitem__(p[1], p[2]) if p[0] == 'SET' else model.pop(p[1], None)
+                if res.get('b_after_install') != model:
+                    hit = True
+                    break
+            print(json.dumps(res, indent=1)[:2000])
+            print('REPRODUCED' if hit else 'NOT-REPRODUCED')
+            return 1 if hit else 0
         res = w.send({'op': 'snapshot_transfer', **r['request']})
     finally:
         w.close()
